@@ -24,6 +24,7 @@ pub mod conv;
 pub mod exchange;
 pub mod exchange2;
 pub mod exchange3;
+pub mod glvmodel;
 pub mod gt;
 pub mod lp;
 pub mod lpstake;
@@ -84,7 +85,7 @@ pub const REGISTRY: &[(&str, fn(&mut Ctx))] = &[
     ("C37", treasury::run_c37),
     ("C41", c41::run),
     ("C44", exchange::run_c44),
-    ("C45", exchange::run_c45),
+    ("C45", run_c45_all),
     ("C42", c42::run),
     ("C43", conv::run_c43),
     ("SMOKE", smoke::run),
@@ -134,4 +135,10 @@ fn run_c23_all(ctx: &mut crate::engine::Ctx) {
 fn run_c21_all(ctx: &mut crate::engine::Ctx) {
     revertible::run_c21(ctx);
     revertible_vi::run_c21_vi(ctx);
+}
+
+/// C45: program clauses (real GLV instructions) + the model-level GLV pricing helpers.
+fn run_c45_all(ctx: &mut crate::engine::Ctx) {
+    exchange::run_c45(ctx);
+    glvmodel::run_c45_model(ctx);
 }
